@@ -523,7 +523,7 @@ Definition liquidate_facts (w : hworld) (liqor liqee ab lb : nat) (amount : Z)
     let ee1 := sort_acct ee in
     let er1 := mkHA (set_nth i1 b1' la1) (ha_flags er0) in
     let ee2 := mkHA (set_nth i2 b2' (ha_la ee1)) (ha_flags ee1) in
-    0 < amount /\ ab <> lb /\
+    0 < amount /\ ab <> lb /\ liqor <> liqee /\
     accrue_interest (hb_b ha) (hw_pf w) (hw_now w) = Ok ba1 /\
     accrue_interest (hb_b hl) (hw_pf w) (hw_now w) = Ok bl1 /\
     nth_res liqor (set_nth liqee ee1 (hw_accts w)) = Ok er0 /\
@@ -567,6 +567,7 @@ Proof.
   apply bind_ok in H as (u4 & _ & H). apply bind_ok in H as (u5 & _ & H). apply bind_ok in H as (u6 & _ & H).
   apply bind_ok in H as (u7 & _ & H). apply bind_ok in H as (u8 & _ & H). apply bind_ok in H as (u9 & _ & H).
   apply bind_ok in H as (u10 & _ & H).
+  apply bind_ok in H as (u10b & Hself & H). apply check_ok in Hself.
   apply bind_ok in H as (ba1 & Hacca & H). apply bind_ok in H as (bl1 & Haccl & H).
   set (w1 := put_hacct (put_hbank (put_hbank w ab (set_hb_b ba1 ha)) lb (set_hb_b bl1 hl)) liqee (sort_acct ee)) in H.
   apply bind_ok in H as (u11 & _ & H). apply bind_ok in H as (ps & _ & H).
@@ -633,7 +634,7 @@ Proof.
   split; [reflexivity|]. split; [reflexivity|]. split; [reflexivity|].
   exists ba1, bl1, er0, q_liq, q_fin, ins_fee, i1, la1, b1, bl2, b1', i2, b2, ba2, b2', i3, la3, b3, ba3, b3', i4, b4, bl3, b4', ins_n, f, ba4, bl5.
   cbv zeta.
-  split; [lia|]. split; [exact Hnelb|]. split; [exact Hacca|]. split; [exact Haccl|].
+  split; [lia|]. split; [exact Hnelb|]. split; [destruct (Nat.eqb_spec liqor liqee); [discriminate|assumption]|]. split; [exact Hacca|]. split; [exact Haccl|].
   split; [exact Her0|]. split; [exact Hif|]. split; [lia|]. split; [exact Hqf0|].
   split; [exact Hloc1|]. split; [exact Hb1|]. split; [exact Hdec1|].
   split; [exact Hi2|]. split; [exact Hb2|]. split; [exact Hdec2|].
@@ -649,4 +650,12 @@ Proof.
   intros (ba1 & bl1 & er0 & q_liq & q_fin & ins_fee & i1 & la1 & b1 & bl2 & b1' & i2 & b2 & ba2 & b2' & i3 & la3 & b3 & ba3 & b3' &
           i4 & b4 & bl3 & b4' & ins_n & f & ba4 & bl5 & F).
   cbv zeta in F. destruct F as (_ & Hne & _). exact Hne.
+Qed.
+
+Lemma liquidate_facts_distinct w liqor liqee ab lb amount ha hl ha' hl' ee er ee3 er3 :
+  liquidate_facts w liqor liqee ab lb amount ha hl ha' hl' ee er ee3 er3 -> liqor <> liqee.
+Proof.
+  intros (ba1 & bl1 & er0 & q_liq & q_fin & ins_fee & i1 & la1 & b1 & bl2 & b1' & i2 & b2 & ba2 & b2' & i3 & la3 & b3 & ba3 & b3' &
+          i4 & b4 & bl3 & b4' & ins_n & f & ba4 & bl5 & F).
+  cbv zeta in F. destruct F as (_ & _ & Hd & _). exact Hd.
 Qed.
